@@ -160,8 +160,8 @@ impl Check for C15 {
 	}
 	fn runs(&self, tier: Tier) -> u64 {
 		match tier {
-			Tier::Quick => 17 * 5 * 120,
-			Tier::Thorough => 17 * 5 * 3_000,
+			Tier::Quick => 17 * 5 * 600,
+			Tier::Thorough => 17 * 5 * 12_000,
 		}
 	}
 	fn generate(&self, root: &Rng, i: u64, tier: Tier) -> Case {
